@@ -4,16 +4,16 @@
 package verifsim
 
 import (
-	"os"
-	"path/filepath"
-	_ "time/tzdata"
 	"crypto/sha256"
 	"encoding/hex"
 	"fmt"
+	"os"
+	"path/filepath"
 	"runtime/debug"
 	"sort"
 	"strings"
 	"time"
+	_ "time/tzdata"
 )
 
 // ---------------------------------------------------------------------------------------------
@@ -160,10 +160,10 @@ func (r *Run) Logf(format string, a ...any) {
 	r.Trace = append(r.Trace, fmt.Sprintf("%04d ", r.Step)+fmt.Sprintf(format, a...))
 }
 
-func (r *Run) Count(name string)        { r.Stats[name]++ }
+func (r *Run) Count(name string)         { r.Stats[name]++ }
 func (r *Run) CountN(name string, n int) { r.Stats[name] += n }
-func (r *Run) Probe(name string)        { r.Stats["probe."+name]++ }
-func (r *Run) Fault(name string)        { r.Stats["fault."+name]++ }
+func (r *Run) Probe(name string)         { r.Stats["probe."+name]++ }
+func (r *Run) Fault(name string)         { r.Stats["fault."+name]++ }
 
 // Fail aborts the run with a violation.
 func (r *Run) Fail(prop, class, sig, format string, a ...any) {
